@@ -26,7 +26,7 @@ def signature(text):
         return "san:asan:%s:%s" % (m.group(1), fn[:60])
     m = re.search(r"runtime error: ([^\n]{0,80})", text)
     if m:
-        return "san:ubsan:" + re.sub(r"\b\d[\d.]*\b", "N", m.group(1))[:70]
+        return "san:ubsan:" + re.sub(r"\b\d[\d.]*\b", "N", re.sub(r"0x[0-9a-fA-F]+", "ADDR", m.group(1)))[:70]
     m = re.search(r"Assertion '([^']*)' failed", text)
     if m:
         if "poisson" in text:
